@@ -478,6 +478,8 @@ pub struct RunSpec<'a> {
     pub stack_kb: &'a [usize],
     pub fault: Option<EmitFault>,
     pub step_cap: u64,
+    /// allocator calls inside library calls are scheduling points too
+    pub alloc_yield: bool,
     /// per-step watchdog; expiry is a harness error (an uninstrumented blocking primitive), never a violation
     pub watchdog: Duration,
 }
@@ -527,6 +529,7 @@ pub fn execute(spec: &RunSpec, chooser: Chooser, pool: Arc<dyn Pool + Send + Syn
         }
         let shared2 = shared.clone();
         let pool2 = pool.clone();
+        let alloc_yield = spec.alloc_yield;
         let h = std::thread::Builder::new()
             .stack_size(spec.stack_kb[tid] * 1024)
             .name(format!("client-{}", tid))
@@ -550,7 +553,11 @@ pub fn execute(spec: &RunSpec, chooser: Chooser, pool: Arc<dyn Pool + Send + Syn
                         (st.choices.len() as u64, st.stream.len())
                     };
                     hooks::set_in_op(true);
+                    hooks::leave_harness(false);
+                    hooks::set_alloc_yield(alloc_yield);
                     let res = ops::exec(&*pool2, op);
+                    hooks::set_alloc_yield(false);
+                    hooks::leave_harness(false);
                     hooks::set_in_op(false);
                     // operands still what they were? (shared operands only; fresh ones are gone)
                     let inputs_intact = if op.fresh {
